@@ -219,3 +219,12 @@ def wellformed_filter(rng, events, shape=None, allow_limit=False):
     if allow_limit and rng.random() < 0.3:
         f["limit"] = rng.choice([1000, 5000])
     return f
+
+
+def stall_knob(rng, p=0.15):
+    """scheduler profile entries that stall one residue class of SQL connections (slow disk / busy worker
+    thread): their jobs are picked much more rarely than everything else"""
+    if rng.random() >= p:
+        return {}
+    m = rng.choice([2, 3, 3, 4])
+    return {"stall_mod": m, "stall_rem": rng.choice([0, rng.randrange(m)]), "stall_scale": rng.choice([0.02, 0.1])}
